@@ -338,6 +338,10 @@ func (vs *ValidatorStore) HandleUnstake(unstake Unstake, height int64) error {
 
 	amt := big.NewInt(0).Sub(validator.Staking.BigInt(), unstake.Amount.BigInt())
 
+	if amt.Sign() < 0 {
+		return errors.New("unstake amount exceeds the stake of the validator record")
+	}
+
 	validator.Staking = *balance.NewAmountFromBigInt(amt)
 	validator.Power = calculatePower(validator.Staking)
 	purgeHeight, err := vs.GetLastPurgeHeight(validator.Address)
@@ -460,7 +464,9 @@ func (vs *ValidatorStore) GetEndBlockUpdate(ctx *ValidatorContext, req types.Req
 			}
 
 			// delete validator who's power is 0
-			if validator.Power <= 0 {
+			// (validator is the record of the previous version: the validator may have staked
+			// again in this block, so the decision is taken on the current record)
+			if cur, err := vs.Get(validator.Address); validator.Power <= 0 && err == nil && cur.Power <= 0 {
 				vKey := append(vs.prefix, validator.Address.Bytes()...)
 				fmt.Println("Deleting :", validator.Address.String())
 				//TODO: validator delete will not properly delete the item because of state implementation
@@ -482,7 +488,7 @@ func (vs *ValidatorStore) GetEndBlockUpdate(ctx *ValidatorContext, req types.Req
 			}
 
 			//distribute the fee for validators
-			if distribute {
+			if distribute && vs.totalPower > 0 && queued.Priority() > 0 {
 				feeShare := total.MultiplyInt64(queued.Priority()).DivideInt64(vs.totalPower)
 
 				err = ctx.FeePool.MinusFromPool(feeShare)
